@@ -158,18 +158,61 @@ theorem random_exact (N : Nat) (cand choice : List Nat) (n : Nat)
     rw [getD_maskFromIdx _ hi] at h
     exact hsub i (by simpa using h)
 
-/-- **a list of requests records the union of the single requests** (masks are
-combined with element-wise OR; every `random` consumes its own recorded choice) -/
+/-- **a list of requests records the union of the single requests**: the masks are
+combined with element-wise OR (every `random` consumes its own recorded choice); all
+masks have one entry per vial, so the element-wise OR (`zipWith`) never truncates and
+vial `i` is recorded iff one of the single requests records it. -/
 theorem strings_union (arr : Arr) (nz : Nat) (exts : List Nat) (s : String) (ss : List String)
     (choices : List (List Nat)) :
     interpretStrings arr nz exts (s :: ss) choices
-      = (interpretString arr nz exts s (choices.headD [])).bind fun p =>
+      = ((interpretString arr nz exts s (choices.headD [])).bind fun p =>
           (interpretStrings arr nz exts ss (if p.2 then choices.tail else choices)).bind fun rest =>
-            .ok (orMask p.1 rest) := by
-  rw [interpretStrings]
-  cases interpretString arr nz exts s (choices.headD []) with
-  | error e => rfl
-  | ok p => cases p; rfl
+            .ok (orMask p.1 rest))
+    ∧ (∀ m u rest, interpretString arr nz exts s (choices.headD []) = .ok (m, u) →
+        interpretStrings arr nz exts ss (if u then choices.tail else choices) = .ok rest →
+        m.length = exts.length ∧ rest.length = exts.length ∧ (orMask m rest).length = exts.length
+        ∧ ∀ i, i < exts.length → (orMask m rest).getD i false = (m.getD i false || rest.getD i false)) := by
+  constructor
+  · rw [interpretStrings]
+    cases interpretString arr nz exts s (choices.headD []) with
+    | error e => rfl
+    | ok p => cases p; rfl
+  · intro m u rest h1 h2
+    have l1 := interpretString_length arr nz exts s _ m u h1
+    have l2 := interpretStrings_length arr nz exts ss _ rest h2
+    refine ⟨l1, l2, by rw [orMask_length (l1.trans l2.symm), l1], ?_⟩
+    intro i hi
+    simp [orMask, List.getD_eq_getElem?_getD, l1, l2, hi]
+
+/-- **default-count requests** (`"uniform"`, `"uniform.core"`, `"random"`, … without a
+number): the count is `defaultCount N = int(ceil(0.1·N))` (IEEE doubles; its numeric value
+is tied to the code by the comparison, e.g. 4 of 30), and the request behaves like the
+explicit-count request with that number: `uniform` records at most that many vials of
+the group (at least one), `random` is rejected iff it exceeds the group and otherwise
+records the supplied choice. -/
+theorem default_count_requests (arr : Arr) (nz : Nat) (exts : List Nat) (s : String) (choice : List Nat)
+    (mask0 : List Bool)
+    (hm : (match firstGroup (lower s) with
+            | some g => maskOf arr nz exts [g]
+            | none => pure (List.replicate exts.length true)) = .ok mask0)
+    (hn : digitRuns (lower s) none = []) :
+    (hasSub "random".toList (lower s) = false → hasSub "uniform".toList (lower s) = true →
+      0 < defaultCount exts.length → 0 < (whereTrue mask0).length →
+      ∃ m, interpretString arr nz exts s choice = .ok (m, false)
+        ∧ m.count true ≤ defaultCount exts.length
+        ∧ ∀ i, i < exts.length → m.getD i false = true → mask0.getD i false = true)
+    ∧ (hasSub "random".toList (lower s) = true →
+      interpretString arr nz exts s choice
+        = if defaultCount exts.length > (whereTrue mask0).length then .error "ValueError"
+          else .ok (maskFromIdx exts.length choice, true)) := by
+  constructor
+  · intro hr hu hn0 hc
+    refine ⟨_, uniform_default_lemma arr nz exts s choice mask0 hm hr hu hn hn0 hc, ?_, ?_⟩
+    · exact (uniform_le exts.length (whereTrue mask0) _ hn0 hc).1
+    · intro i hi h
+      exact mem_whereTrue ((uniform_le exts.length (whereTrue mask0) _ hn0 hc).2.1 i hi h)
+  · intro hr
+    exact random_default_lemma arr nz exts s choice mask0 hm hr hn
 
 section rows
 variable {α : Type}
@@ -270,6 +313,25 @@ theorem nonvacuous :
     ∧ expected .square 3 3 1 (.seq [.bool true, .bool false]) = ["IndexError"]
     ∧ expected .square 1 1 1 (.seq [.bool true]) = ["ValueError"]
     ∧ malformed .square 3 3 1 (.strs ["core", "corner_random_2"]) = false
+    -- hypothesis sets of the conditional theorems, on a 3×3 square shelf
+    ∧ (∀ x ∈ [(0 : Int), 4, 8], 0 ≤ x ∧ x < 9)                                         -- ints_exact
+    ∧ (firstGroup (lower "Edge") = some "edge" ∧ hasSub "random".toList (lower "Edge") = false
+        ∧ hasSub "uniform".toList (lower "Edge") = false)                               -- group_exact
+    ∧ (firstGroup (lower "uniform.edge.2") = some "edge"
+        ∧ (maskOf .square 1 (extVec .square 3 3 1) ["edge"]).toOption
+            = some [false, true, false, true, false, true, false, true, false]
+        ∧ hasSub "random".toList (lower "uniform.edge.2") = false
+        ∧ hasSub "uniform".toList (lower "uniform.edge.2") = true
+        ∧ digitRuns (lower "uniform.edge.2") none = [2]
+        ∧ 0 < (whereTrue [false, true, false, true, false, true, false, true, false]).length)  -- uniform_request / uniform_le
+    ∧ (hasSub "random".toList (lower "corner_random_2") = true
+        ∧ digitRuns (lower "corner_random_2") none = [2]
+        ∧ [0, 8].Nodup ∧ (∀ v ∈ [0, 8], v ∈ [0, 2, 6, 8]) ∧ [0, 8].length = 2
+        ∧ (∀ v ∈ [0, 2, 6, 8], v < 9))                                                   -- random_request / random_exact
+    ∧ (digitRuns (lower "uniform.core") none = [] ∧ hasSub "uniform".toList (lower "uniform.core") = true) -- default_count_requests
+    ∧ ((interpretString .square 1 (extVec .square 3 3 1) "core" []).toOption.isSome
+        ∧ (interpretStrings .square 1 (extVec .square 3 3 1) ["corner_random_2"] [[0, 8]]).toOption.isSome) -- strings_union
+    ∧ ([true, false, true].length = [1, 2, 3].length)                                   -- rows_order / subset_eq_full
     ∧ firstGroup (lower "cornerEDGE") = some "corner"
     ∧ digitRuns (lower "2random3") none = [2, 3] := by decide
 
